@@ -407,6 +407,7 @@ static OWN: &[Tgt] = &[
     Tgt::Own { name: "RcNest", call: own::<RcNest> },
     Tgt::Own { name: "MapStrVecI64", call: own::<std::collections::BTreeMap<String, Vec<i64>>> },
     Tgt::Own { name: "f64", call: own::<f64> },
+    Tgt::Own { name: "MapStrDeepSeq", call: own::<std::collections::BTreeMap<String, DeepSeq>> },
 ];
 
 /// Every target: the vcore family followed by the ones defined here.
